@@ -4,6 +4,7 @@ import Mathlib.Data.Finset.Lattice.Basic
 import Mathlib.Data.Finset.Powerset
 import Mathlib.Order.WellFounded
 import Mathlib.Order.Preorder.Finite
+import Mathlib.Algebra.BigOperators.Group.Finset.Sigma
 
 /-! L-UPSET / L-DOWNSET (C09): in the lattice of closed sets, everything above (below) a closed set is reached
 from it through upper (lower) covers; L-MINIMAL: below every member of a finite set there is a minimal member. -/
@@ -124,6 +125,15 @@ theorem exists_maximal_ge (I : Finset β) {x : β} (hx : x ∈ I) :
   exists_minimal_le (β := βᵒᵈ) I hx
 
 end Minimal
+
+namespace Cells
+
+/-- fill_ratio (C14): the sizes of the rows add up to the number of true cells `(i, j)`. -/
+theorem card_true_cells {ι κ : Type*} (rows : Finset ι) (row : ι → Finset κ) :
+    (rows.sigma row).card = ∑ i ∈ rows, (row i).card :=
+  Finset.card_sigma rows row
+
+end Cells
 
 #print axioms Upset.upset_complete
 #print axioms Upset.downset_complete
